@@ -705,6 +705,7 @@ enum LabelledStructState {
     Init,
     Header,
     NoHeader,
+    NoHeaderExtant,
     AttrBetween,
     AttrItem,
     BodyBetween,
@@ -717,6 +718,7 @@ enum OrdinalStructState {
     Init,
     Header,
     NoHeader,
+    NoHeaderExtant,
     AttrBetween,
     AttrItem,
     BodyBetween,
@@ -983,7 +985,17 @@ impl<T, Flds> Recognizer for LabelledStructRecognizer<T, Flds> {
                 }
             }
             LabelledStructState::NoHeader => match input {
-                ReadEvent::Extant => None,
+                ReadEvent::Extant => {
+                    *state = LabelledStructState::NoHeaderExtant;
+                    None
+                }
+                ReadEvent::EndAttribute => {
+                    *state = LabelledStructState::AttrBetween;
+                    None
+                }
+                ow => Some(Err(ow.kind_error(ExpectedEvent::EndOfAttribute))),
+            },
+            LabelledStructState::NoHeaderExtant => match input {
                 ReadEvent::EndAttribute => {
                     *state = LabelledStructState::AttrBetween;
                     None
@@ -1155,7 +1167,17 @@ impl<T, Flds> Recognizer for OrdinalStructRecognizer<T, Flds> {
                 }
             }
             OrdinalStructState::NoHeader => match input {
-                ReadEvent::Extant => None,
+                ReadEvent::Extant => {
+                    *state = OrdinalStructState::NoHeaderExtant;
+                    None
+                }
+                ReadEvent::EndAttribute => {
+                    *state = OrdinalStructState::AttrBetween;
+                    None
+                }
+                ow => Some(Err(ow.kind_error(ExpectedEvent::EndOfAttribute))),
+            },
+            OrdinalStructState::NoHeaderExtant => match input {
                 ReadEvent::EndAttribute => {
                     *state = OrdinalStructState::AttrBetween;
                     None
@@ -1439,6 +1461,7 @@ enum DelegateStructState {
     Init,
     Header,
     NoHeader,
+    NoHeaderExtant,
     AttrBetween,
     AttrItem,
     Delegated,
@@ -1584,7 +1607,17 @@ impl<T, Flds> Recognizer for DelegateStructRecognizer<T, Flds> {
                 }
             }
             DelegateStructState::NoHeader => match input {
-                ReadEvent::Extant => None,
+                ReadEvent::Extant => {
+                    *state = DelegateStructState::NoHeaderExtant;
+                    None
+                }
+                ReadEvent::EndAttribute => {
+                    *state = DelegateStructState::AttrBetween;
+                    None
+                }
+                ow => Some(Err(ow.kind_error(ExpectedEvent::EndOfAttribute))),
+            },
+            DelegateStructState::NoHeaderExtant => match input {
                 ReadEvent::EndAttribute => {
                     *state = DelegateStructState::AttrBetween;
                     None
